@@ -5,6 +5,7 @@ rlbox::memset / memcpy / memcmp (rlbox_stdlib.hpp:103-217), tainted_base_impl::u
 copy_memory_or_grant_access / copy_memory_or_deny_access (rlbox_stdlib.hpp:232-342).
 libc calls are stubs whose *preconditions* state what RLBox must guarantee about the ranges it passes."""
 from vlib.unit import Unit, Inst
+import vlib.replay_c09  # registers the hook-based native replays
 from .common import CXX_INTS, mi, tid, cs, PRE_GHOST, HOST_SIZE
 
 PROP = 'C10'
@@ -272,7 +273,7 @@ def deny_access_inst(el, esz, tier):
     return Inst('c10_copy_memory_or_deny_access_%s' % tid(el), 'rlbox_sandbox<vsbx>& s, tainted<%s*, vsbx> src, size_t num, bool fr, bool& copied' % el,
                 'copy_memory_or_deny_access(s, src, num, fr, copied);', cl, h, leaves=['dynamic_check', CHECK_RANGE_LEAF, free_leaf], prop=PROP,
                 root_name='copy_memory_or_deny_access', tier=tier, pre=DENY_SPEC.replace('int g_slot;', 'int g_slot; unsigned long g_exp_esz;'),
-                extra_replace=['vstd_memcpy', 'vstd_malloc', 'vstd_free'], replay={'kind': 'deny_access', 'el': el, 'esz': esz})
+                extra_replace=['vstd_memcpy', 'vstd_malloc', 'vstd_free'], replay={'kind': 'deny_access', 'el': el, 'esz': esz, 'no_inputs': True})
 
 
 GRANT_SPEC = SPEC + ''' unsigned g_sbx_mallocs, g_rl_memcpys, g_app_frees; unsigned long g_sbx_malloc_ret, g_cp_d, g_cp_s, g_cp_n, g_exp_esz; unsigned int g_sbx_malloc_count; _Bool g_malloc_fails;
